@@ -67,8 +67,39 @@ def mutants(fn):
             cands.append(("name", i))
         if isinstance(n, ast.Expr) and isinstance(n.value, ast.Call) and not (isinstance(n.value.func, ast.Name) and n.value.func.id in ("print", "warn")):
             cands.append(("del", i))
+    # swap two adjacent statements one of which writes what the other reads (or writes)
+    for i, n in enumerate(nodes):
+        for fld in ("body", "orelse"):
+            lst = getattr(n, fld, None)
+            if isinstance(lst, list) and len(lst) > 1 and isinstance(lst[0], ast.stmt):
+                for k in range(len(lst) - 1):
+                    a, b = lst[k], lst[k + 1]
+                    def eff(st):
+                        comp_t = {id(x) for c in ast.walk(st) if isinstance(c, ast.comprehension) for x in ast.walk(c.target)}
+                        bound = {x.id for c in ast.walk(st) if isinstance(c, ast.comprehension) for x in ast.walk(c.target) if isinstance(x, ast.Name)}
+                        wn = {("n", x.id) for x in ast.walk(st) if isinstance(x, ast.Name) and isinstance(x.ctx, ast.Store) and id(x) not in comp_t}
+                        wn |= {("a", x.attr) for x in ast.walk(st) if isinstance(x, ast.Attribute) and isinstance(x.ctx, ast.Store)}
+                        rn = {("n", x.id) for x in ast.walk(st) if isinstance(x, ast.Name) and isinstance(x.ctx, ast.Load) and x.id not in bound}
+                        rn |= {("a", x.attr) for x in ast.walk(st) if isinstance(x, ast.Attribute) and isinstance(x.ctx, ast.Load)}
+                        return wn, rn
+                    wa, ra = eff(a)
+                    wb, rb = eff(b)
+                    if (wa & rb or wa & wb) and not isinstance(a, (ast.FunctionDef, ast.ClassDef)) and not isinstance(b, (ast.FunctionDef, ast.ClassDef)):
+                        cands.append(("swap", (i, fld, k)))
     rnd.shuffle(cands)
     for kind, i in cands[:MAXN]:
+        if kind == "swap":
+            m = copy.deepcopy(fn)
+            owner = list(ast.walk(m))[i[0]]
+            lst = getattr(owner, i[1])
+            lst[i[2]], lst[i[2] + 1] = lst[i[2] + 1], lst[i[2]]
+            ast.fix_missing_locations(m)
+            try:
+                compile(ast.Module(body=[m], type_ignores=[]), "<m>", "exec")
+            except Exception:
+                continue
+            yield f"swap@{getattr(lst[i[2]], 'lineno', '?')}", m
+            continue
         m = copy.deepcopy(fn)
         mn = list(ast.walk(m))[i]
         desc = f"{kind}@{getattr(mn, 'lineno', '?')}"
